@@ -147,6 +147,30 @@ def cases(tier, seed):
     return out
 
 
+def run_query_per_ledger(res):
+    """query.run_query(..., numberify=True) numberifies with the display precision of the ledger it is given, whichever ledgers
+    were queried before in the process"""
+    from beanquery import query as bq
+    from harness import ledger
+    import beanquery
+    loaded = {n: ledger.load(src) for n, src in (('A', ledger.LEDGER_A), ('B', ledger.LEDGER_B))}
+    q = 'SELECT account, sum(position) AS total, sum(cost(position)) AS c GROUP BY account ORDER BY account'
+    for name in ('B', 'A', 'B', 'A'):
+        entries, errors, options = loaded[name]
+        res.case(('run_query', name))
+        try:
+            gt, gr = bq.run_query(entries, options, q, numberify=True)
+            conn = beanquery.connect('beancount:', entries=entries, errors=[], options=options)
+            cur = conn.execute(q)
+            wt, wr = numberify.numberify_results(cur.description, cur.fetchall(), options['dcontext'].build())
+        except Exception as e:  # noqa
+            res.violation('h17:run_query:' + name, 'run_query with numberify executes', {'ledger': name}, f'{type(e).__name__}: {e}', 'rows')
+            continue
+        if [d.name for d in gt] != [d.name for d in wt] or [tuple(r) for r in gr] != [tuple(r) for r in wr]:
+            bad = next(((a, b) for a, b in zip(gr, wr) if tuple(a) != tuple(b)), None)
+            res.violation('h17:run_query-formatter', 'numbers are quantized to the display precision of the queried ledger', {'ledger': name, 'after': 'other ledger'}, bad[0] if bad else [d.name for d in gt], bad[1] if bad else [d.name for d in wt])
+
+
 def run(tier, seed):
     res = Result('result tables mixing plain and Amount / Position / Inventory columns: every single cell value and every pair of cell values per '
                  'amount-like type (exhaustive over the pools incl. NULL, zero amounts, empty inventories, several lots of one currency), with and '
@@ -156,6 +180,7 @@ def run(tier, seed):
         res.case(repr(case), {'columns': [t.__name__ for t in case[0]], 'rows': len(case[1]), 'formatter': case[2]})
         if bad:
             res.violation('h17:' + bad[0][:40] + ':' + ','.join(bad[1]['columns']), bad[0], bad[1], bad[2], bad[3])
+    run_query_per_ledger(res)
     return res.asdict()
 
 
